@@ -49,6 +49,37 @@ def run(tier, replay=None):
             exact = "1" if (tier == "thorough" or lb + le <= 4) else "0"
             for k in range(ns):
                 jobs.append(((lb, le, k, ns), [os.path.join(OCAML, "drv_angular"), "tables", f, exact, str(k), str(ns)]))
+        # ---- sequence independence: engines constructed one after the other in ONE process, in several orders (small before large, LB > LE
+        #      after LB < LE, repeated configurations, some engines destroyed in between): every table must be bit-identical to the table the
+        #      same configuration gives in a fresh process (those are the tables compared with the exact model above)
+        small = [c for c in cfgs if c[0] + c[1] <= 5]
+        orders = [[(1, 3), (3, 1), (1, 3)], [(0, 2), (2, 0), (1, 1), (2, 1), (1, 2)], sorted(small), sorted(small, reverse=True),
+                  sorted(small, key=lambda c: (c[0] + c[1], -c[0])), sorted(small, key=lambda c: (c[1], c[0]))]
+        rs = SplitMix(seed() * 1000 + 13)
+        for _ in range(2 if tier == "quick" else 10):
+            o = list(small); rs.shuffle(o); orders.append(o)
+        orders = [[c for c in o if c[0] <= maxl and c[1] <= maxl] for o in orders]
+        nseq = 0
+        for oi, o in enumerate(orders):
+            pre = os.path.join(tmp, "seq%d" % oi)
+            rc, out = sh([exe, "seq", pre] + [str(x) for c in o for x in c], check=False, timeout=1200)
+            if rc != 0:
+                bad.append(("crash", {"engine_sequence": o}, "constructing the engines %s one after the other in one process failed: %s" % (o, out[-400:]))); continue
+            for i, c in enumerate(o):
+                ref = os.path.join(tmp, "t_%d_%d.bin" % c)
+                if not os.path.exists(ref):
+                    sh([exe, "tables", str(c[0]), str(c[1]), ref], check=False, timeout=600)
+                a = open(ref, "rb").read(); b = open("%s_%d.bin" % (pre, i), "rb").read()
+                nseq += 1
+                if a != b:
+                    import struct
+                    k = next((j for j in range(0, min(len(a), len(b)), 8) if a[j:j + 8] != b[j:j + 8]), 0)
+                    bad.append(("sequence", {"engine_sequence": o[:i + 1], "LB": c[0], "LE": c[1]},
+                                "the tables of AngularIntegral(%d,%d) constructed after %s differ from those of a fresh process (first difference at byte %d: %r vs %r)" % (
+                                    c[0], c[1], o[:i], k, struct.unpack("d", a[k:k + 8]) if k + 8 <= len(a) and k >= 16 else a[k:k + 8], struct.unpack("d", b[k:k + 8]) if k + 8 <= len(b) and k >= 16 else b[k:k + 8])))
+                    break
+                os.remove("%s_%d.bin" % (pre, i))
+        res.cov["engines_constructed_in_sequence_and_compared_bitwise"] = nseq
         # run jobs, NPROC at a time
         running = []
         results = []
@@ -113,7 +144,7 @@ def run(tier, replay=None):
             seen.add(key)
             res.violation("%s-%d" % (kind, len(seen)), {"theorem_or_correspondence": "AngularModel (extracted; proved equal to the sphere-integral spec on the stated domains) vs AngularIntegral / realSphericalHarmonics",
                                                         "input": inp, "observed": msg, "all": [m for k2, i2, m in bad if (k2, str(i2)) == key][:10]},
-                          no_input=(kind == "crash"))
+                          no_input=(kind == "crash" and "engine_sequence" not in inp and "LB" not in inp))
     finally:
         shutil.rmtree(tmp, ignore_errors=True)
     res.assumptions += ["the irrational normalisation sqrt(c(lam,mu)) and pi are evaluated in double precision when a table entry is compared",
